@@ -1047,6 +1047,7 @@ func main() {
 	}
 	out.Put(muxProbe())
 	out.Put(mwProbe())
+	out.Put(gzProbe(hx.Rand(f.Seed+78), 600))
 	out.Put(authProbe())
 	out.Put(pathProbe(f.Seed))
 	out.Put(defaultMuxProbe(asm.DefaultMuxPatterns))
